@@ -87,7 +87,7 @@ def corpus(workdir, seed, tier):
     out.append(("nested", "protobuf", [put("nested.proto", NESTED_PROTO)]))
     out.append(("shop", "thrift", [shop_thrift(put)]))
     import compilesuite
-    out.append(("cycles", "thrift", [put("cycles.thrift", compilesuite.cycles_doc(random.Random(seed * 7 + 1), 60 if tier == "quick" else 160))]))
+    out.append(("cycles", "thrift", [put("cycles.thrift", compilesuite.cycles_doc(random.Random(seed * 7 + 1), 45 if tier == "quick" else 160))]))
     out.append(("shopp", "protobuf", [shop_proto(put)]))
     # services that inherit across files, with a struct that several files use (in workspace mode it moves to the common crate and
     # every crate re-exports what it needs from the others)
@@ -99,10 +99,10 @@ def corpus(workdir, seed, tier):
                              "service A extends svc_c.C { OnlyA get(1: svc_b.Shared s, 2: svc_c.OnlyC c) throws (1: svc_b.Oops o) }\n")
     out.append(("svc", "thrift", [sa, sb, sc]))
     # one module with many items (more than any batch size a parallel writer might use): the order of items inside a module
-    big = "namespace rs big.one\n" + "".join(f"struct Item{i:04} {{ 1: i32 a, 2: optional string s }}\n" if i % 7 else f"enum Kind{i:04} {{ A = 1, B = 2 }}\n" for i in range(700 if tier == "quick" else 1400))
+    big = "namespace rs big.one\n" + "".join(f"struct Item{i:04} {{ 1: i32 a, 2: optional string s }}\n" if i % 7 else f"enum Kind{i:04} {{ A = 1, B = 2 }}\n" for i in range(126 if tier == "quick" else 1400))
     # ... with items whose names differ only by case from an item far away in the same module (split mode gives the later one a
     # numbered file name: which one is "later" must not depend on how the items are divided among workers)
-    big += "".join(f"struct ITEM{i:04} {{ 1: i32 a }}\n" for i in (3, 250, 601)) + "enum KIND0007 { A = 1 }\nstruct item0002 { 1: i32 a }\n"
+    big += "".join(f"struct ITEM{i:04} {{ 1: i32 a }}\n" for i in ((3, 60, 110) if tier == "quick" else (3, 250, 601))) + "enum KIND0007 { A = 1 }\nstruct item0002 { 1: i32 a }\n"
     out.append(("big", "thrift", [put("big.thrift", big)]))
     for d in idlgen.fixed_docs():
         out.append((d["name"], "thrift", [put(d["name"] + ".thrift", idlgen.render(d))]))
